@@ -111,7 +111,15 @@ func c03Gen(tier string, seed int64) []core.Case {
 			k++
 		}
 	}
-	return runVariants(cs, 9, "keygen")
+	cs = runVariants(cs, 9, "keygen")
+	{
+		sc := sessCfg{"eddsa-keygen", 2, 1, nil, 0, 0, "small", 0.5}
+		p := sc.P()
+		p["max"] = 1500
+		id := "short-encodings/eddsa-keygen/until-every-32-byte-field-was-sent-with-a-leading-zero-byte"
+		cs = append(cs, core.Case{ID: id, Class: id, Kind: "short-fields", P: p, Cost: 40})
+	}
+	return cs
 }
 
 // captureFirstCommitments hooks the wire: V_i0 is the first point of party i's round-2 decommitment.
@@ -157,6 +165,10 @@ func errorsOf(w *sim.World) []string {
 
 func c03Run(c core.Case, env *core.Env) core.Result {
 	r := res(c)
+	if c.Kind == "short-fields" {
+		shortFieldsRun(&r, env, c.P, c.P.Int("max"))
+		return r
+	}
 	curve, n, t := c.P.Str("curve"), c.P.Int("n"), c.P.Int("t")
 	ids := keyIDs(c.P.Str("pat"), n, curve, env.Seed)
 	defer setDefaultCurve(c.P, curve)()
@@ -349,7 +361,15 @@ func c01Gen(tier string, seed int64) []core.Case {
 			k++
 		}
 	}
-	return runVariants(cs, 7, "sign")
+	cs = runVariants(cs, 7, "sign")
+	if tier == "thorough" {
+		sc := sessCfg{"ecdsa-signing", 3, 1, []int{0, 2}, 0, 0, "seeded", 0.8}
+		p := sc.P()
+		p["max"] = 250
+		id := "short-encodings/ecdsa-signing/250-sessions-with-reproducible-randomness"
+		cs = append(cs, core.Case{ID: id, Class: id, Kind: "short-fields", P: p, Cost: 250})
+	}
+	return cs
 }
 
 // forcedS names the values the un-normalised sum of the signature shares is steered to (see c01ForcedS).
@@ -530,6 +550,10 @@ func c01Run(c core.Case, env *core.Env) core.Result {
 		sel = append(sel, keys[i])
 	}
 	pub := refPt(keys[0].ECDSAPub)
+	if c.Kind == "short-fields" {
+		shortFieldsRun(&r, env, c.P, c.P.Int("max"))
+		return r
+	}
 	if c.Kind == "forced-s" {
 		c01ForcedS(&r, c, env, sel, t, pub)
 		return r
@@ -673,11 +697,23 @@ func c02Gen(tier string, seed int64) []core.Case {
 			k++
 		}
 	}
-	return runVariants(cs, 9, "sign")
+	cs = runVariants(cs, 9, "sign")
+	{
+		sc := sessCfg{"eddsa-signing", 3, 1, []int{0, 1, 2}, 0, 0, "seeded", 0.3}
+		p := sc.P()
+		p["max"] = 1500
+		id := "short-encodings/eddsa-signing/until-every-32-byte-field-was-sent-with-a-leading-zero-byte"
+		cs = append(cs, core.Case{ID: id, Class: id, Kind: "short-fields", P: p, Cost: 30})
+	}
+	return cs
 }
 
 func c02Run(c core.Case, env *core.Env) core.Result {
 	r := res(c)
+	if c.Kind == "short-fields" {
+		shortFieldsRun(&r, env, c.P, c.P.Int("max"))
+		return r
+	}
 	n, t := c.P.Int("n"), c.P.Int("t")
 	keys, err := EDDSAKey(env, n, t, []string{"small", "seeded", "large"}[len(c.ID)%3], c.ID)
 	if err != nil {
